@@ -48,7 +48,13 @@ struct in_t {
 V_DEFINE_IN
 
 /* ---- the disk ------------------------------------------------------------- */
-static char   d_disk[CAP + 1]; static size_t d_len; static int d_exists;
+/* file 0 = the preload file "/p"; file 1 = ONE auxiliary file of any other name (a temporary for write-then-rename) */
+static char   f_disk[2][CAP + 1]; static size_t f_len[2]; static int f_exists[2];
+static char   f_auxname[16];
+#define d_disk   f_disk[0]
+#define d_len    f_len[0]
+#define d_exists f_exists[0]
+static int    s_file;          /* which file the open stream refers to */
 static char   d_old[CAP + 1];  static size_t d_oldlen; static int d_oldexists;
 static char   d_new[CAP + 1];  static size_t d_newlen; static int d_newknown;   /* content handed to the write call */
 static int    g_wopen_calls, g_wopen_ok, g_fprintf_calls, g_exit_code = -1, g_returned = -1, g_open_streams;
@@ -107,16 +113,22 @@ static void boundary(void) { g_step++; }
 /* ---- stdio over the disk ---------------------------------------------------- */
 FILE *fopen(const char *path, const char *mode)
 {
-    V_ASSERT(strcmp(path, "/p") == 0, "C20: no file other than the preload file is opened");
+    int fi = (strcmp(path, "/p") == 0) ? 0 : 1;
+    if (fi == 1) {
+        /* a second file: allowed (write-then-rename); the preload file itself stays the subject of every oracle */
+        if (f_auxname[0] == '\0') { size_t k = 0; for (; k + 1 < sizeof f_auxname && path[k] != '\0'; k++) f_auxname[k] = path[k]; f_auxname[k] = '\0'; }
+        V_ASSERT(strncmp(path, f_auxname, sizeof f_auxname - 1) == 0, "MODEL: more than one auxiliary file is not modelled");
+    }
+    s_file = fi;
     if (mode[0] == 'r' && mode[1] != '+' && !(mode[1] != '\0' && mode[2] == '+')) {
-        if (!d_exists) { errno = ENOENT; return NULL; }
+        if (!f_exists[fi]) { errno = ENOENT; return NULL; }
         s_mode = 'r'; s_rpos = 0; g_open_streams++;
         return &g_fobj;
     }
     if (mode[0] == 'r') {                       /* "r+": update in place, no truncation, position 0 */
         g_wopen_calls++;
         boundary();
-        if (!d_exists) { errno = ENOENT; return NULL; }
+        if (!f_exists[fi]) { errno = ENOENT; return NULL; }
 #ifdef CRASH
         if (IN.fail_open & 1) { errno = EACCES; return NULL; }
 #endif
@@ -126,14 +138,14 @@ FILE *fopen(const char *path, const char *mode)
         return &g_fobj;
     }
     V_ASSERT(mode[0] == 'w' || mode[0] == 'a', "MODEL fopen: unexpected mode");
-    g_wopen_calls++;
+    if (fi == 0) g_wopen_calls++;
     boundary();
 #ifdef CRASH
     if (IN.fail_open & 1) { errno = EACCES; return NULL; }
 #endif
-    if (mode[0] == 'w') { d_len = 0; d_exists = 1; s_wpos = 0; }           /* O_TRUNC takes effect at open */
-    else { d_exists = 1; s_wpos = d_len; }
-    g_wopen_ok++;
+    if (mode[0] == 'w') { f_len[fi] = 0; f_exists[fi] = 1; s_wpos = 0; }           /* O_TRUNC takes effect at open */
+    else { f_exists[fi] = 1; s_wpos = f_len[fi]; }
+    if (fi == 0) g_wopen_ok++;
     s_mode = 'w'; s_pendlen = 0; g_open_streams++;
     boundary();
     return &g_fobj;
@@ -141,7 +153,7 @@ FILE *fopen(const char *path, const char *mode)
 
 static void flush_n(size_t n)
 {
-    for (size_t i = 0; i < n && i < s_pendlen; i++) if (s_wpos < CAP) { d_disk[s_wpos++] = s_pend[i]; if (s_wpos > d_len) d_len = s_wpos; }
+    for (size_t i = 0; i < n && i < s_pendlen; i++) if (s_wpos < CAP) { f_disk[s_file][s_wpos++] = s_pend[i]; if (s_wpos > f_len[s_file]) f_len[s_file] = s_wpos; }
     size_t k = 0;
     for (size_t i = n; i < s_pendlen; i++) s_pend[k++] = s_pend[i];
     s_pendlen = k;
@@ -158,13 +170,13 @@ int fprintf(FILE *fp, const char *fmt, ...)
     size_t n = strlen(s);
     V_ASSERT(n <= CAP, "MODEL: new content longer than capacity");
     for (size_t i = 0; i < n && i < CAP; i++) d_new[i] = s[i];
-    d_newlen = n; d_newknown = 1;
+    d_newlen = n; d_newknown = 1;          /* the intended new content (whichever file it is first written to) */
     boundary();
 #ifdef CRASH
     if (IN.fail_write & 1) {                                     /* ENOSPC / EIO / EDQUOT after a partial write */
         g_write_failed = 1;
         size_t k = IN.partial % (n + 1);
-        for (size_t i = 0; i < k; i++) if (s_wpos < CAP) { d_disk[s_wpos++] = s[i]; if (s_wpos > d_len) d_len = s_wpos; }
+        for (size_t i = 0; i < k; i++) if (s_wpos < CAP) { f_disk[s_file][s_wpos++] = s[i]; if (s_wpos > f_len[s_file]) f_len[s_file] = s_wpos; }
         errno = ENOSPC;
         boundary();
         return -1;
@@ -199,19 +211,42 @@ int ftruncate(int fd, off_t len)
 #ifdef CRASH
     if (IN.fail_write & 2) { errno = EIO; g_write_failed = 1; boundary(); return -1; }
 #endif
-    if (len >= 0 && (size_t)len <= d_len) d_len = (size_t)len;
+    if (len >= 0 && (size_t)len <= f_len[s_file]) f_len[s_file] = (size_t)len;
     boundary();
     return 0;
 }
 int fsync(int fd) { (void)fd; return 0; }
 
-int fseek(FILE *fp, long off, int whence) { (void)fp; s_rpos = (whence == SEEK_END) ? d_len + (size_t)off : (size_t)off; return 0; }
+/* rename(aux, "/p"): the preload file is replaced ATOMICALLY by the auxiliary file's content */
+int rename(const char *from, const char *to)
+{
+    V_ASSERT(f_auxname[0] != '\0' && strncmp(from, f_auxname, sizeof f_auxname - 1) == 0 && strcmp(to, "/p") == 0, "MODEL rename: only <auxiliary file> -> preload file is modelled");
+    g_wopen_calls++; g_wopen_ok++;          /* counts as the (one) write-back of the preload file */
+    boundary();
+#ifdef CRASH
+    if (IN.fail_write & 4) { errno = EXDEV; g_write_failed = 1; boundary(); return -1; }
+#endif
+    if (!f_exists[1]) { errno = ENOENT; return -1; }
+    for (size_t i = 0; i < f_len[1] && i < CAP; i++) f_disk[0][i] = f_disk[1][i];
+    f_len[0] = f_len[1]; f_exists[0] = 1; f_exists[1] = 0;
+    boundary();
+    return 0;
+}
+int unlink(const char *path)
+{
+    if (f_auxname[0] != '\0' && strncmp(path, f_auxname, sizeof f_auxname - 1) == 0) { f_exists[1] = 0; return 0; }
+    V_ASSERT(strcmp(path, "/p") != 0, "C20: the preload file itself is never removed");
+    errno = ENOENT; return -1;
+}
+int remove(const char *path) { return unlink(path); }
+
+int fseek(FILE *fp, long off, int whence) { (void)fp; s_rpos = (whence == SEEK_END) ? f_len[s_file] + (size_t)off : (size_t)off; return 0; }
 long ftell(FILE *fp) { (void)fp; return (long)s_rpos; }
 size_t fread(void *buf, size_t sz, size_t nm, FILE *fp)
 {
     (void)fp;
-    size_t want = sz * nm, avail = d_len - s_rpos, n = want < avail ? want : avail;
-    for (size_t i = 0; i < n; i++) ((char *)buf)[i] = d_disk[s_rpos + i];
+    size_t want = sz * nm, avail = f_len[s_file] - s_rpos, n = want < avail ? want : avail;
+    for (size_t i = 0; i < n; i++) ((char *)buf)[i] = f_disk[s_file][s_rpos + i];
     s_rpos += n;
     return n / sz;
 }
